@@ -141,8 +141,19 @@ func (m *Machine) mkTimerObj(typeName string, periodic bool) value {
 
 func extNewTimer(fr *frame, a []value) value {
 	obj := fr.i.mkTimerObj("Timer", false)
-	fr.i.findTimer(obj.(*value)).dur = concDur(a[0])
+	fr.i.arm(fr.i.findTimer(obj.(*value)), a[0])
 	return obj
+}
+
+// arm records the duration a timer was armed with and the (concrete) clock
+// reading at that instant, so that its firing can move the virtual clock to the
+// instant it was set for
+func (m *Machine) arm(vt *vtimer, d value) {
+	vt.dur = concDur(d)
+	vt.armedAt = -1
+	if c, ok := m.clockVal().(int64); ok && !m.clockSymbolic {
+		vt.armedAt = c
+	}
 }
 
 func concDur(v value) int64 {
@@ -156,14 +167,14 @@ func extNewTicker(fr *frame, a []value) value {
 		panic(targetPanic{iface{types.Typ[types.String], "non-positive interval for NewTicker"}})
 	}
 	obj := fr.i.mkTimerObj("Ticker", true)
-	fr.i.findTimer(obj.(*value)).dur = concDur(a[0])
+	fr.i.arm(fr.i.findTimer(obj.(*value)), a[0])
 	return obj
 }
 
 func extTimeAfter(fr *frame, a []value) value {
 	m := fr.i
 	obj := m.mkTimerObj("Timer", false).(*value)
-	m.findTimer(obj).dur = concDur(a[0])
+	m.arm(m.findTimer(obj), a[0])
 	return m.findTimer(obj).ch
 }
 
@@ -174,7 +185,7 @@ func extAfterFunc(fr *frame, a []value) value {
 	*obj = zero(tp)
 	vt := m.newVTimer(obj, false)
 	vt.fn = a[1]
-	vt.dur = concDur(a[0])
+	m.arm(vt, a[0])
 	return obj
 }
 
@@ -210,7 +221,7 @@ func extTimerReset(fr *frame, a []value) value {
 	was := vt.active
 	vt.active = true
 	if len(a) > 1 {
-		vt.dur = concDur(a[1])
+		m.arm(vt, a[1])
 	}
 	if vt.ch != nil && !m.asyncTimerChan {
 		vt.ch.buf = nil
